@@ -60,3 +60,20 @@ pub fn random_bytes(rng: &mut vrt::Rng, n: usize) -> Vec<u8> {
 pub fn random_alpha(rng: &mut vrt::Rng, n: usize) -> Vec<u8> {
     (0..n).map(|_| b'a' + rng.below(26) as u8).collect()
 }
+
+/// Replacement alternative `alt` of a fixed-size id-like value: 1 unrelated (random), 2 differs
+/// only in the last byte, 3 differs only in the first byte.
+pub fn near<const N: usize>(orig: &[u8; N], alt: i64, rng: &mut vrt::Rng) -> [u8; N] {
+    let mut b = *orig;
+    match alt {
+        2 => b[N - 1] ^= 0x01,
+        3 => b[0] ^= 0x80,
+        _ => loop {
+            rng.fill(&mut b);
+            if &b != orig {
+                break;
+            }
+        },
+    }
+    b
+}
